@@ -1287,12 +1287,13 @@ class ShortBinUnicode(DynamicLength, ConstantOpcode):
     def validate(cls, obj: str) -> bytes:
         if not isinstance(obj, str):
             raise ValueError(f"obj must be of type str, not {obj!r}")
-        return super().validate(obj.encode("utf-8"))
+        # like pickle itself, let lone surrogates through: the unpickler decodes with surrogatepass
+        return super().validate(obj.encode("utf-8", "surrogatepass"))
 
     def encode_body(self) -> bytes:
         text = self.arg
         if isinstance(text, str):
-            text = text.encode("utf-8")
+            text = text.encode("utf-8", "surrogatepass")
         return text
 
 
@@ -1316,13 +1317,13 @@ class Unicode(ConstantOpcode):
     def validate(cls, obj: str) -> bytes:
         if not isinstance(obj, str):
             raise ValueError(f"{cls.__name__}.new expects a str object, not {obj!r}")
-        return obj.encode("utf-8")
+        return obj.encode("utf-8", "surrogatepass")
 
     def encode_body(self) -> bytes:
         text = self.arg
         if isinstance(text, bytes):
             # validate() and the command line interface hand over the UTF-8 encoding of the text
-            text = text.decode("utf-8")
+            text = text.decode("utf-8", "surrogatepass")
         return raw_unicode_escape(text)
 
 
